@@ -349,7 +349,13 @@ func init() {
 			rf := wrap(r.Rate)
 			trig = &api.Trigger{Trigger: api.NewIterationWorker(r.IterationDuration, rf), Duration: r.Duration, DryRun: rf}
 		case "users":
-			trig = &api.Trigger{Trigger: users.NewWorker(conc)}
+			// the trigger the `users` sub-command builds (its worker count is the run's concurrency option)
+			b := users.Rate()
+			ut, err := b.New(b.Flags)
+			if err != nil {
+				return "trigger-err"
+			}
+			trig = ut
 		case "file":
 			var sb strings.Builder
 			fmt.Fprintf(&sb, "scenario: s\nlimits:\n  max-duration: %sms\n  concurrency: %d\n  max-iterations: %s\n  ignore-dropped: true\nstages:\n",
